@@ -36,7 +36,7 @@ fn main() {
         profile: "unknown".into(),
         tiny: false,
         known: Vec::new(),
-        hang_s: 120.0,
+        hang_s: 300.0,
         inflight_file: None,
         out_file: None,
     };
@@ -102,7 +102,7 @@ fn main() {
                 i += 1;
             }
             "--hang-seconds" => {
-                cfg.hang_s = need(i).parse().unwrap_or(120.0);
+                cfg.hang_s = need(i).parse().unwrap_or(300.0);
                 i += 1;
             }
             "--inflight-file" => {
